@@ -81,6 +81,7 @@ static int runHammer(uint64_t seed, int threads, long long ops, int nBuckets, in
             int op = r.below(100);
             if (op < 45) {
                 int nonce = r.below(65536);
+                if (r.below(64) == 0) nonce = 32769;        // evaluation -32767 = UNKNOWN_SCORE, what the search stores for nodes in check
                 Rec rc = recFor(key, nonce);
                 Move m = rc.m; m.setScore(rc.score);
                 tt.insert(key, m, rc.type, r.below(64), rc.depth, rc.eval);
@@ -265,6 +266,25 @@ static int runTbRegion(uint64_t seed, long long nops) {
             if (phase == 0) for (long long i = 0; i < nops / 4; i++) { Move m(Square(r.below(64)), Square(r.below(64)), 0); m.setScore(r.below(2000) - 1000); tt.insert(r.next(), m, 1 + r.below(3), r.below(30), r.below(60), r.below(500) - 250, false); }
         }
         stat["tbregion_clear_or_resize_checks"]++;
+    }
+    // Several generations in a row without a clear in between, in the smallest tables that can host one (the part left for hashing
+    // must be recomputed from the table size each time, not shrunk again)
+    for (int mb : {7, 8, 9, 12}) {
+        TranspositionTable t8((U64)mb * 65536);
+        for (int k = 0; k < 5; k++) {
+            const char* fen = (k & 1) ? "8/8/8/4k3/8/8/3R4/K7 w - - 0 1" : "8/8/8/4k3/8/8/3Q4/K7 w - - 0 1";
+            snprintf(crumb, sizeof(crumb), "tbregion %d MB table, generation %d", mb, k + 1);
+            Position root = TextIO::readFEN(fen);
+            RelaxedShared<S64> nl(-1);
+            if (!t8.updateTB(root, nl)) { viol("updateTB-failed", crumb); break; }
+            int sc0 = 0; bool f0 = t8.probeDTM(root, 0, sc0);
+            uint64_t n = t8.byteSize(); uint64_t h0 = 1469598103934665603ull; for (uint64_t i = n - region; i < n; i++) { h0 ^= t8.getByte(i); h0 *= 1099511628211ull; }
+            for (long long i = 0; i < 60000; i++) { uint64_t key = r.next(); if (i & 1) { TranspositionTable::TTEntry e; t8.probe(key, e); } else { Move m(Square(r.below(64)), Square(r.below(64)), 0); m.setScore(r.below(2000) - 1000); t8.insert(key, m, 1 + r.below(3), r.below(30), r.below(60), r.below(500) - 250, false); } }
+            uint64_t h1 = 1469598103934665603ull; for (uint64_t i = n - region; i < n; i++) { h1 ^= t8.getByte(i); h1 *= 1099511628211ull; }
+            int sc1 = 0; bool f1 = t8.probeDTM(root, 0, sc1);
+            if (!f0 || !f1 || sc0 != sc1 || h0 != h1) viol("tablebase-region-modified-by-hash-traffic", std::string(crumb) + " (repeated generation)");
+            stat["tbregion_repeated_generations"]++;
+        }
     }
     finish();
     return 0;
